@@ -1,4 +1,4 @@
-\* folding law over the expression space (one state)
+\* folding law over the expression space, boolean connectives over NULL / TRUE / FALSE included (one state)
 CONSTANTS
   Stmts <- Stmts1
   StmtParams <- Params1
@@ -8,5 +8,5 @@ CONSTANTS
   MaxCalls = 0
 INIT Init
 NEXT Next
-INVARIANTS FoldLaw
+INVARIANTS FoldLaw FoldLawFull
 CHECK_DEADLOCK FALSE
